@@ -5,6 +5,7 @@ import Driver.Closed
 import Driver.Stream
 import Driver.OpCache
 import Driver.Shard
+import Driver.Race
 import Netpoll.Gen.Consts
 def main (args : List String) : IO UInt32 := do
   match args with
@@ -13,6 +14,7 @@ def main (args : List String) : IO UInt32 := do
   | ["opcache"] => Driver.OpCache.main; return 0
   | ["stream"] => Driver.Stream.main; return 0
   | ["closed"] => Driver.Closed.main; return 0
+  | ["race"] => Driver.Race.main; return 0
   | ["adapter"] => Driver.Adapter.main Netpoll.Gen.c_block4k; return 0
   | ["shard", trace] => Driver.Shard.main trace false
   | ["shard", trace, "nomodel"] => Driver.Shard.main trace true
